@@ -7,10 +7,10 @@ of the OpenMP 4.5 / 5.0 and OpenACC nesting rules the property names, and of the
 directive-inserting transformations (`ParallelRegionTrans.apply`, `ParallelLoopTrans.validate/apply`,
 the stand-alone directive insertions).
 
-MODE: this file models the code WITH the fixes of /repo commits d0e6145 / 053c279 and the candidate
-fixes `fixes/C10-collapse-rectangular.patch` (a), `fixes/C10-omp-acc-mixing.patch` (b),
-`fixes/C10-teams-simd-region-nesting.patch` (c), `fixes/C10-acc-standalone-placement.patch` (d);
-lines that exist only because of (a)–(d) are marked.
+MODE: this file models the FIXED code: /repo with the `fix:` commits d0e6145 / 053c279 and
+26670ce (a, `fixes/C10-collapse-rectangular.patch`), f63f3e2 (b, `C10-omp-acc-mixing`), 3023462 (c,
+`C10-teams-simd-region-nesting`), b01d4e9 (d, `C10-acc-standalone-placement`); lines that exist only
+because of (a)–(d) are marked.
 
 A PSyIR statement list is a first-child / next-sibling `Forest` (non-nested inductive, so every
 function below is structurally recursive and evaluates under `decide`).  Core Lean only. -/
